@@ -7,6 +7,9 @@ package main
 // In-process through the real mux; and end-to-end over TCP (a panic shows as a dropped connection there).
 
 import (
+	"sync/atomic"
+	"sync"
+	"net"
 	"encoding/hex"
 	"bytes"
 	"crypto/ed25519"
@@ -370,7 +373,107 @@ func c13One(c *Ctx, id, scen string, state, ii int, r0 *rand.Rand) {
 
 // ---- (B) end-to-end: a panic is a dropped connection --------------------------------------------------------
 
+// c13ConnectionFlood: a peer opens more connections than the accessory's descriptor table has room for, says nothing
+// on them and goes away. While the table is full nothing can be accepted; afterwards the accessory must serve again.
+func c13ConnectionFlood(c *Ctx) {
+	id := "e2e-flood#0"
+	if c.Skip(id) {
+		return
+	}
+	r := c.CaseRng("e2e-flood", 0)
+	acc, err := startE2EChild(c.ScratchDir(), "HC_VERIF_NOFILE=48")
+	if err != nil {
+		c.Violate("transport does not start", id, nil, "started", err.Error())
+		return
+	}
+	defer acc.Stop()
+	ident := newRefIdentity(r, "ctrl-1")
+	first, _ := acc.Dial()
+	sr := refPairSetup(r, first.Post(), "001-02-003", ident)
+	first.Close()
+	if sr.ErrAt != "" {
+		c.Violate("reference controller cannot pair", id, nil, "paired", sr.ErrAt)
+		return
+	}
+	// connection churn: many short connections come and go at once next to a controller that keeps asking (sessions are
+	// added to and removed from the shared context from many goroutines at the same time)
+	{
+		stop := make(chan struct{})
+		var wg sync.WaitGroup
+		var churned int64
+		for g := 0; g < 12; g++ {
+			wg.Add(1)
+			go func(g int) {
+				defer wg.Done()
+				for {
+					select {
+					case <-stop:
+						return
+					default:
+					}
+					cn, err := net.DialTimeout("tcp", "127.0.0.1:"+acc.port, time.Second)
+					if err != nil {
+						time.Sleep(5 * time.Millisecond)
+						continue
+					}
+					if g%3 == 0 {
+						cn.Write([]byte("GET /accessories HTTP/1.1\r\nHost: x\r\n\r\n"))
+						cn.SetReadDeadline(time.Now().Add(200 * time.Millisecond))
+						cn.Read(make([]byte, 512))
+					}
+					cn.Close()
+					atomic.AddInt64(&churned, 1)
+				}
+			}(g)
+		}
+		time.Sleep(time.Duration(c.Pick(1500, 6000)) * time.Millisecond)
+		close(stop)
+		wg.Wait()
+		time.Sleep(100 * time.Millisecond)
+		c.Count("e2e-churn", acc.Alive(), "e2e:churn")
+		if !acc.Alive() {
+			c.Violate("the accessory process ends when many connections come and go at once", id, map[string]interface{}{"goroutines_connecting_and_closing": 12, "connections": atomic.LoadInt64(&churned)}, "still running", "exited")
+			return
+		}
+	}
+	var held []net.Conn
+	for i := 0; i < 120; i++ {
+		if cn, err := net.DialTimeout("tcp", "127.0.0.1:"+acc.port, time.Second); err == nil {
+			held = append(held, cn)
+		}
+	}
+	time.Sleep(1200 * time.Millisecond)
+	for _, cn := range held {
+		cn.Close()
+	}
+	in := map[string]interface{}{"descriptor_table": 48, "connections_opened_and_closed_without_a_byte": len(held)}
+	deadline := time.Now().Add(12 * time.Second)
+	last := "no attempt"
+	served := false
+	for time.Now().Before(deadline) && !served {
+		time.Sleep(300 * time.Millisecond)
+		cl, err := acc.Dial()
+		if err != nil {
+			last = err.Error()
+			continue
+		}
+		cl.timeout = 3 * time.Second
+		vr := refPairVerify(r, cl.Post(), ident, sr.AccLTPK)
+		cl.Close()
+		served = vr.Shared != nil
+		last = vr.ErrAt
+	}
+	c.Count(id, served, "e2e:flood")
+	if !acc.Alive() {
+		c.Violate("the accessory process ends after a peer opened more connections than it has descriptors", id, in, "still running", "exited")
+	} else if !served {
+		c.Violate("the accessory does not serve any more after a peer opened more connections than it has descriptors (and closed them)", id, in, "pair-verify on a new connection succeeds within 12 s", last)
+	}
+}
+
 func checkC13E2E(c *Ctx) {
+	c13ConnectionFlood(c)
+	c03PlainFraming(c) // the framing of plaintext requests decides whether a second request on a connection is served
 	id := "e2e#0"
 	if c.Skip(id) {
 		return
@@ -456,6 +559,23 @@ func checkC13E2E(c *Ctx) {
 				c.Violate("remote input is answered by a dropped connection instead of a response", id, map[string]interface{}{"scenario": desc, "body_hex": trunc(hx(in.Body), 400)}, "HTTP response", err.Error())
 			} else if !okStatus(m.Status) {
 				c.Violate("remote input is not answered with a well-formed response", id, desc, "HTTP status of the HAP vocabulary", fmt.Sprint(m.Status))
+			}
+			if err == nil && (p.scen == "pair-setup" || p.scen == "pair-verify") && !strings.EqualFold(m.Header.Get("Connection"), "close") {
+				// … and on the SAME connection: a request without a body (its end is the end of its header), then a
+				// correct handshake, of which at most the first start request may be rejected
+				g, gerr := cl.Do("GET", "/accessories", "", nil)
+				if gerr != nil {
+					c.Violate("a request without a body on the connection that carried the malformed input is not answered", id, desc, "HTTP response", gerr.Error())
+				} else if !strings.EqualFold(g.Header.Get("Connection"), "close") {
+					vr := refPairVerify(r, cl.Post(), ident, sr.AccLTPK)
+					if vr.Shared == nil && strings.HasPrefix(vr.ErrAt, "M2") {
+						vr = refPairVerify(r, cl.Post(), ident, sr.AccLTPK)
+					}
+					if vr.Shared == nil {
+						c.Violate("accessory cannot complete pair-verify on the same connection after malformed input", id, desc+"; then GET /accessories; then handshake on the same connection", "verified (at most one start request rejected)", vr.ErrAt)
+					}
+					c.Count(desc+"/same-conn", vr.Shared != nil, "e2e:same-connection")
+				}
 			}
 			cl.Close()
 			// the accessory still serves: full verify on a new connection
